@@ -320,6 +320,7 @@ package updown
 //@   # return means none was received and the reader, the workers and the writer all signalled completion
 //@   after assign:cWriteDone#1: assume [env.errors] forallint(k, envat(cErr, k) != nil)
 //@   ghost gErrSeen bool = false
+//@   before call:getLines#1: assert [c10.worker] sameslice(arg(0), refSeq) && arg(1) == cFR && arg(2) == cudLs && arg(3) == cErr
 //@   before call:writeOutput#1: assert [c10.writer] arg(0) == out && arg(1) == cudLs && arg(2) == cErr && arg(3) == cWriteDone
 //@   before call:ReadEncodeAlignment#1: assert [c10.reader] arg(0) == alignment && arg(1) == false && arg(2) == cFR && arg(3) == cErr && arg(4) == cFRDone
 //@   loop 1:
